@@ -34,6 +34,11 @@ def _fn(node):
     return None
 
 
+# functions one of whose returns is a set (filled by rule_r1_sets): the
+# result of a call is then a set for the caller, in any module
+SET_RETURNING = set()
+
+
 def is_set_expr(e, setnames, dictsets):
     """Syntactic "this expression is a set"."""
     if isinstance(e, (ast.Set, ast.SetComp)):
@@ -41,6 +46,8 @@ def is_set_expr(e, setnames, dictsets):
     if isinstance(e, ast.Call):
         nm = call_name(e)
         if nm in ('set', 'frozenset'):
+            return True
+        if nm and nm.split('.')[-1] in SET_RETURNING:
             return True
         if isinstance(e.func, ast.Attribute) and e.func.attr in (
                 'union', 'intersection', 'difference',
@@ -74,6 +81,40 @@ def rule_r1_sets(chk, prog):
              'sorted without key')
     nsets = 0
     nuse = 0
+    # pre-pass: which functions hand out a set (possibly among other
+    # things)?  Their callers consume it.
+    SET_RETURNING.clear()
+    for _round in range(2):
+        for m in decision_modules(prog):
+            modsets, dictsets = set(), set()
+            for name, vals in m.globals.items():
+                if any(is_set_expr(v, set(), set()) for v in vals):
+                    modsets.add(name)
+            for c in ast.walk(m.tree):
+                if isinstance(c, ast.Call) and isinstance(
+                        c.func, ast.Attribute) and \
+                        c.func.attr == 'setdefault' and len(
+                            c.args) == 2 and is_set_expr(c.args[1], set(),
+                                                         set()):
+                    dictsets.add(unparse(c.func.value))
+                if isinstance(c, ast.Assign) and isinstance(
+                        c.targets[0], ast.Subscript) and is_set_expr(
+                            c.value, set(), set()):
+                    dictsets.add(unparse(c.targets[0].value))
+            for q, f in m.funcs.items():
+                if '<locals>' in q:
+                    continue
+                names = set(modsets)
+                for st in walk_no_nested(f):
+                    if isinstance(st, ast.Assign) and is_set_expr(
+                            st.value, names, dictsets):
+                        for t in st.targets:
+                            if isinstance(t, ast.Name):
+                                names.add(t.id)
+                for r in walk_no_nested(f):
+                    if isinstance(r, ast.Return) and r.value is not None \
+                            and is_set_expr(r.value, names, dictsets):
+                        SET_RETURNING.add(q.split('.')[-1])
     for m in decision_modules(prog):
         # scopes: module + each function
         scopes = [(None, m.tree)] + [(q, f) for q, f in m.funcs.items()]
@@ -548,6 +589,22 @@ def run(tier):
     chk.guard(rule_r3, chk, prog)
     chk.guard(rule_r4, chk, prog)
     chk.guard(rule_r5, chk, prog)
+    # the only place where a measured time becomes a decision is the
+    # default time limit: it must be the documented, generous multiple of
+    # the run time of the command it limits (shared with C10.R4)
+    from . import c10
+    sub10 = Check('C10', 'other', tier, [], [])
+    chk.guard(c10.rule_r4, sub10, prog)
+    sub10.instances = [r for r in sub10.instances
+                       if 'default' in r['what'] or 'timeout' in r['what']]
+    sub10.findings = [f_ for f_ in sub10.findings
+                      if 'default' in f_.construct or 'timeout' in
+                      f_.construct]
+    chk.adopt('C18.R6', 'each command\'s default time limit is derived from '
+              'its own golden run ((t + 1) * 1.5): a limit taken from the '
+              'other command\'s run makes acceptance depend on how long a '
+              'deterministic command happens to take (shared with C10.R4)',
+              sub10)
     extra = None
     if tier == 'thorough':
         from .. import selftest
